@@ -120,6 +120,94 @@ let run_map id params toks =
     Printf.printf "%s %s\n" id (String.concat "|" (obs @ (if cut then ["?"] else [])))
   | _ -> ()
 
+let parse_sop (t : string) : sop option =
+  let n x = ni (int_of_string x) in
+  match String.split_on_char ':' t with
+  | ["app"; w] -> Some (SApp (nat_list w))
+  | ["appn"; k; c] -> Some (SAppN (n k, n c))
+  | ["pb"; c] -> Some (SPush (n c))
+  | ["ins"; p; w] -> Some (SIns (n p, nat_list w))
+  | ["insn"; p; k; c] -> Some (SInsN (n p, n k, n c))
+  | ["insit"; p; c] -> Some (SInsIt (n p, n c))
+  | ["er"; p; k] -> Some (SErase (n p, n k))
+  | ["ernpos"; p] -> Some (SEraseNpos (n p))
+  | ["erit"; a; b] -> Some (SEraseIt (n a, n b))
+  | ["erit1"; p] -> Some (SEraseIt1 (n p))
+  | ["rsz"; k; c] -> Some (SResize (n k, n c))
+  | ["rsz0"; k] -> Some (SResize0 (n k))
+  | ["rsv"; k] -> Some (SReserve (n k))
+  | ["clr"] -> Some SClear
+  | ["asgw"; w] -> Some (SAssignW (nat_list w))
+  | ["asgn"; k; c] -> Some (SAssignN (n k, n c))
+  | ["substr"; p; k] -> Some (SSubstr (n p, n k))
+  | ["selfsub"; p; k] -> Some (SSelfSub (n p, n k))
+  | ["appsub"; p; k] -> Some (SAppSub (n p, n k))
+  | ["appo"] -> Some SAppO
+  | ["cmp"] -> Some SCmp
+  | ["cmpw"; w] -> Some (SCmpW (nat_list w))
+  | ["idx"; i] -> Some (SIdx (n i))
+  | ["cstr"] -> Some SCStr
+  | ["riter"] -> Some SRIter
+  | ["cpy"] -> Some SCopy
+  | ["asg"] -> Some SAssign
+  | ["selfasg"] -> Some SSelfAssign
+  | ["swap"] -> Some SSwap
+  | ["sel"; r] -> Some (SSel (r <> "0"))
+  | _ -> None
+
+let run_str id toks =
+  let rec split acc = function
+    | [] -> (List.rev acc, false)
+    | t :: r -> (match parse_sop t with Some o -> split (o :: acc) r | None -> (List.rev acc, true)) in
+  let (ops, cut) = split [] toks in
+  let is_cmp = List.map (fun o -> match o with SCmp | SCmpW _ -> true | _ -> false) ops in
+  let show (o, cmp) = match o with
+    | None -> "!"
+    | Some ((((r, n), cs), term), cap) ->
+      let rs = match r with
+        | SRNone -> "-"
+        | SRNum k -> if cmp then string_of_int (int_of_nat k - 1) else string_of_int (int_of_nat k)
+        | SRList l -> show_list l in
+      Printf.sprintf "%s/%d%s/%s/%s/%d" rs (int_of_nat n) (if n = O then "e" else "") (show_list cs)
+        (if term then "z" else "N") (int_of_nat cap) in
+  let obs = List.map show (List.combine (strun stinit ops) is_cmp) in
+  Printf.printf "%s %s\n" id (String.concat "|" (obs @ (if cut then ["?"] else [])))
+
+let parse_dop (t : string) : dop option =
+  let n x = ni (int_of_string x) in
+  match String.split_on_char ':' t with
+  | ["pb"; x] -> Some (DPush (n x))
+  | ["pop"] -> Some DPop
+  | ["back"] -> Some DBack
+  | ["idx"; i] -> Some (DIdx (n i))
+  | ["setidx"; i; x] -> Some (DSetIdx (n i, n x))
+  | ["rsz"; k] -> Some (DResize (n k))
+  | ["clr"] -> Some DClear
+  | ["iter"] -> Some DIter
+  | ["riter"] -> Some DRIter
+  | ["cpy"] -> Some DCopy
+  | ["asg"] -> Some DAssign
+  | ["selfasg"] -> Some DSelfAssign
+  | ["swap"] -> Some DSwap
+  | ["sel"; r] -> Some (DSel (r <> "0"))
+  | ["new"; k] -> Some (DNew (n k))
+  | _ -> None
+
+let run_deq id params toks =
+  match params with
+  | [a; b] ->
+    let rec split acc = function
+      | [] -> (List.rev acc, false)
+      | t :: r -> (match parse_dop t with Some o -> split (o :: acc) r | None -> (List.rev acc, true)) in
+    let (ops, cut) = split [] toks in
+    let s0 = { dreg0 = new_deq (ni a); dreg1 = new_deq (ni b); dcur = false } in
+    let show = function
+      | None -> "!"
+      | Some (((r, n), e), l) -> Printf.sprintf "%s/%d%s/%s" (show_ret r) (int_of_nat n) (if e then "e" else "") (show_list l) in
+    let obs = List.map show (drun s0 ops) in
+    Printf.printf "%s %s\n" id (String.concat "|" (obs @ (if cut then ["?"] else [])))
+  | _ -> ()
+
 let () =
   let ic = if Array.length Sys.argv > 1 then open_in Sys.argv.(1) else stdin in
   iter_lines ic (fun line ->
@@ -128,5 +216,7 @@ let () =
       (match kind with
        | "vi" | "vs" -> run_vec id toks
        | "m" -> run_map id (int_list params) toks
+       | "s" -> run_str id toks
+       | "d" -> run_deq id (int_list params) toks
        | _ -> ())
     | _ -> ())
